@@ -20,32 +20,54 @@ from common import Check, run_tlc, run_oalv_parallel, workdir
 BASE = "file:///w/"
 
 
-def url(m):
-    return BASE + m + ".oal"
+DIRS = ["", "lib/", "lib/deep/", "other/"]
 
 
-def spellings(t, rng):
-    opts = [t + ".oal", "./" + t + ".oal", "sub/../" + t + ".oal", "../w/" + t + ".oal", "a/b/../../" + t + ".oal"]
+def layout_of(G, rng):
+    """directory of every module: flat, or (half of the aliased renderings) spread over sub-directories - the main module
+    stays at the top"""
+    if rng is None or rng.random() < 0.5:
+        return {m: "" for m in G}
+    return {m: ("" if m == "m1" else rng.choice(DIRS)) for m in G}
+
+
+def path_of(m, layout):
+    return layout.get(m, "") + m + ".oal"
+
+
+def url(m, layout=None):
+    return BASE + path_of(m, layout or {})
+
+
+def spellings(m, t, rng, layout):
+    """a relative spelling, from the importing module m's directory, of the file of t"""
+    import posixpath
+    rel = posixpath.relpath(path_of(t, layout), posixpath.dirname(path_of(m, layout)) or ".")
+    opts = [rel, "./" + rel, "sub/../" + rel, "a/b/../../" + rel]
+    if not layout.get(m):
+        opts.append("../w/" + rel)            # the folder itself is /w/
     return rng.choice(opts)
 
 
 def render(G, broken, rng=None):
     files = {}
+    layout = layout_of(G, rng)
     for m, imps in G.items():
         lines = []
         for t in imps:
-            sp = (t + ".oal") if rng is None else spellings(t, rng)
+            sp = (t + ".oal") if rng is None else spellings(m, t, rng, layout)
             lines.append('use "%s";' % sp)
         if m in broken:
             lines.append("let = ;")
         else:
             lines.append("let d_%s = num;" % m)
-        files[url(m)] = "\n".join(lines) + "\n"
+        files[url(m, layout)] = "\n".join(lines) + "\n"
     return {"main": url("m1"), "files": files, "real_compile": True}
 
 
 def name(u):
-    return u[len(BASE):-4] if u.startswith(BASE) and u.endswith(".oal") else u
+    # module names are unique whatever the directory
+    return u[len(BASE):-4].rsplit("/", 1)[-1] if u.startswith(BASE) and u.endswith(".oal") else u
 
 
 def events_of(G, broken, obs):
